@@ -77,6 +77,7 @@ def run(ctx):
     wide = ['%s:%s' % (d * n, rest) for n in (19, 20, 639, 640, 641, 4299, 4300, 4301, 5000, 20000) for d in '91' for rest in ('1.0', '1.0-1', '1-2-0')]
     wide += ['0' * n + '7:1.0' for n in (640, 4300, 4301)]
     fails = ctx.prop('prop:roundtrip', allc + wide, p_roundtrip)
+    fails += _ver.pickled_to_another_process(ctx, [s for s in acc[:ctx.n(400, 4000)] if _ver.valid(s)])
     ctx.stream('prop:roundtrip')['accepted'] = sum(1 for s in allc if _ver.valid(s))
     fails.sort(key=lambda f: len(f[0]))
     for x, why in fails[:10]:
